@@ -89,8 +89,12 @@ type scriptedResource struct {
 	res string
 }
 
-func (r *scriptedResource) List(context.Context, metav1.ListOptions) (*unstructured.UnstructuredList, error) {
+func (r *scriptedResource) List(ctx context.Context, _ metav1.ListOptions) (*unstructured.UnstructuredList, error) {
 	a := r.a
+	// like a real client, requests end with the context they were made with
+	if err := ctx.Err(); err != nil {
+		return nil, err
+	}
 	a.mu.Lock()
 	a.lists[r.res]++
 	a.inFlight[r.res]++
@@ -106,8 +110,17 @@ func (r *scriptedResource) List(context.Context, metav1.ListOptions) (*unstructu
 	return l, nil
 }
 
-func (r *scriptedResource) Watch(context.Context, metav1.ListOptions) (watch.Interface, error) {
+func (r *scriptedResource) Watch(ctx context.Context, _ metav1.ListOptions) (watch.Interface, error) {
+	if err := ctx.Err(); err != nil {
+		return nil, err
+	}
 	w := watch.NewFake()
+	if ctx.Done() != nil {
+		go func() {
+			<-ctx.Done()
+			w.Stop() // the stream of a request whose context ended is closed
+		}()
+	}
 	r.a.mu.Lock()
 	r.a.watchers[r.res] = append(r.a.watchers[r.res], w)
 	r.a.mu.Unlock()
